@@ -16,7 +16,10 @@ VARIABLE i
 MinOf(S) == CHOOSE x \in S : \A y \in S : x <= y
 NonBar(gs) == SelectSeq(gs, LAMBDA g : g.k # "BAR")
 \* what a gate does, ignoring which library class/object it is
-Core(g) == [k |-> g.k, w |-> g.w, m |-> IF g.k \in {"P", "MCP"} THEN g.m ELSE 0]
+\* (a phase gate of pi, pi/2, pi/4 IS Z, S, T: an export that is read back cannot tell which class it was)
+PName(m) == IF m = 8 THEN "Z" ELSE IF m = 4 THEN "S" ELSE IF m = 2 THEN "T" ELSE "P"
+Core(g) == [k |-> IF g.k = "P" THEN PName(g.m) ELSE g.k, w |-> g.w,
+            m |-> IF g.k = "MCP" \/ (g.k = "P" /\ PName(g.m) = "P") THEN g.m ELSE 0]
 Cores(gs) == [j \in 1..Len(gs) |-> Core(gs[j])]
 IsCl(g) == g.k \in {"X", "MCX", "I"}          \* the gates a classical run is made of (the identity is one of the library's ZB_GATES)
 
